@@ -164,6 +164,11 @@ class Limit:
             return
 
         sb_idx = self._idx_to_sb_idx(index)
+        if sb_idx >= len(self._scoreboard):
+            # The scheduler may extend the project end after the limit was defined,
+            # and a window can touch more calendar periods than its length suggests
+            # (8 days starting on a Sunday touch 3 weeks): grow the counters on demand.
+            self._scoreboard.extend([0] * (sb_idx + 1 - len(self._scoreboard)))
         if 0 <= sb_idx < len(self._scoreboard):
             self._dirty = True
             self._scoreboard[sb_idx] += 1
